@@ -759,6 +759,164 @@ pub proof fn lemma_remove_keeps_sorted(cells: Seq<(Seq<u8>, u64)>, idx: int)
     }
 }
 
+// ================================================================== internal page updates
+pub open spec fn int_children(b: Seq<u8>) -> Seq<u64> { Seq::new(pg_count(b) as nat, |i: int| ic_child(b, pg_slot(b, i))) }
+
+pub proof fn lemma_icell_frame(b0: Seq<u8>, b1: Seq<u8>, off: int)
+    requires b0.len() == 8192, b1.len() == 8192, 0 <= off, off + 8 < 8192, forall|j: int| off <= j < 8192 ==> b1[j] == b0[j],
+    ensures ic_ok(b1, off) == ic_ok(b0, off), ic_vlen(b1, off) == ic_vlen(b0, off), ic_klen(b1, off) == ic_klen(b0, off),
+        ic_ok(b0, off) ==> ic_key(b1, off) == ic_key(b0, off) && ic_child(b1, off) == ic_child(b0, off),
+{
+    if off + 8 < 8192 {
+        assert(b1.skip(off + 8) =~= b0.skip(off + 8));
+        if ic_ok(b0, off) {
+            axiom_vdec_bounds(b0.skip(off + 8));
+            assert(ic_key(b1, off) =~= ic_key(b0, off));
+            assert(b1.subrange(off, off + 8) =~= b0.subrange(off, off + 8));
+        }
+    }
+}
+
+/// C26.page.internal_insert.view — separator `key` with right child `child` is inserted at cell position idx;
+/// every other separator/child and the leftmost child are unchanged.
+pub proof fn lemma_internal_insert_view(b0: Seq<u8>, b: Seq<u8>, idx: int, key: Seq<u8>, child: u64)
+    requires internal_wf(b0), 0 <= idx <= pg_count(b0), key.len() <= u32::MAX, b.len() == 8192,
+        32 + 2 * pg_count(b0) + 2 + 8 + vlen(key.len() as u32) + key.len() <= pg_begin(b0),
+        forall|j: int| (0 <= j < 6 || 10 <= j < 32 + 2 * idx || pg_begin(b0) <= j < 8192) ==> #[trigger] b[j] == b0[j],
+        b.subrange(6, 8) == le16((pg_count(b0) + 1) as u16),
+        b.subrange(8, 10) == le16((pg_begin(b0) - (8 + vlen(key.len() as u32) + key.len())) as u16),
+        b.subrange(32 + 2 * idx, 32 + 2 * idx + 2) == le16((pg_begin(b0) - (8 + vlen(key.len() as u32) + key.len())) as u16),
+        b.subrange(32 + 2 * idx + 2, 32 + 2 * pg_count(b0) + 2) == b0.subrange(32 + 2 * idx, 32 + 2 * pg_count(b0)),
+        b.subrange(pg_begin(b0) - (8 + vlen(key.len() as u32) + key.len()), pg_begin(b0)) == le64(child) + venc(key.len() as u32) + key,
+    ensures internal_wf(b), int_seps(b) == int_seps(b0).insert(idx, key), int_children(b) == int_children(b0).insert(idx, child),
+        int_child(b, 0) == int_child(b0, 0),
+{
+    let c = pg_count(b0);
+    let bg = pg_begin(b0);
+    let kl = key.len() as u32;
+    let vl = vlen(kl);
+    let co = bg - (8 + vl + key.len());
+    lemma_le16_len((c + 1) as u16);
+    lemma_le16_len(co as u16);
+    lemma_venc_len(kl);
+    lemma_le64_len(child);
+    assert(b.subrange(0, 4) =~= b0.subrange(0, 4));
+    assert(b.subrange(24, 32) =~= b0.subrange(24, 32));
+    assert(pg_count(b) == c + 1);
+    assert(pg_begin(b) == co);
+    let cell = le64(child) + venc(kl) + key;
+    let x = b.subrange(co, bg);
+    assert(b.skip(co + 8) =~= venc(kl) + (key + b.skip(bg))) by {
+        assert forall|j: int| 0 <= j < 8192 - co - 8 implies #[trigger] b.skip(co + 8)[j] == (venc(kl) + (key + b.skip(bg)))[j] by {
+            if j < bg - co - 8 { assert(x[8 + j] == cell[8 + j]); }
+        }
+    }
+    axiom_vdec_roundtrip(kl, key + b.skip(bg));
+    assert(ic_vlen(b, co) == vl && ic_klen(b, co) == key.len());
+    assert(ic_end(b, co) == bg);
+    assert(ic_key(b, co) =~= key) by {
+        assert forall|j: int| 0 <= j < key.len() implies #[trigger] ic_key(b, co)[j] == key[j] by { assert(x[8 + vl + j] == cell[8 + vl + j]); }
+    }
+    assert(b.subrange(co, co + 8) =~= le64(child)) by {
+        assert forall|j: int| 0 <= j < 8 implies #[trigger] b.subrange(co, co + 8)[j] == le64(child)[j] by { assert(x[j] == cell[j]); }
+    }
+    assert(ic_child(b, co) == child);
+    assert(pg_slot(b, idx) == co);
+    assert forall|i: int| 0 <= i < c + 1 && i != idx implies pg_slot(b, i) == pg_slot(b0, if i < idx { i } else { i - 1 }) by {
+        let k = if i < idx { i } else { i - 1 };
+        if i > idx {
+            let xs = b.subrange(32 + 2 * idx + 2, 32 + 2 * c + 2); let ys = b0.subrange(32 + 2 * idx, 32 + 2 * c);
+            assert(xs[2 * (i - idx - 1)] == ys[2 * (i - idx - 1)]);
+            assert(xs[2 * (i - idx - 1) + 1] == ys[2 * (i - idx - 1) + 1]);
+        }
+        lemma_slot_same(b0, b, i, k);
+    }
+    assert forall|i: int| 0 <= i < pg_count(b) implies pg_begin(b) <= #[trigger] pg_slot(b, i) && ic_ok(b, pg_slot(b, i)) by {
+        if i != idx {
+            let k = if i < idx { i } else { i - 1 };
+            assert(pg_begin(b0) <= pg_slot(b0, k) && ic_ok(b0, pg_slot(b0, k)));
+            lemma_icell_frame(b0, b, pg_slot(b0, k));
+        }
+    }
+    assert forall|i: int| 0 <= i < c + 1 implies #[trigger] int_seps(b)[i] == int_seps(b0).insert(idx, key)[i] by {
+        if i != idx {
+            let k = if i < idx { i } else { i - 1 };
+            assert(pg_begin(b0) <= pg_slot(b0, k) && ic_ok(b0, pg_slot(b0, k)));
+            lemma_icell_frame(b0, b, pg_slot(b0, k));
+        }
+    }
+    assert forall|i: int| 0 <= i < c + 1 implies #[trigger] int_children(b)[i] == int_children(b0).insert(idx, child)[i] by {
+        if i != idx {
+            let k = if i < idx { i } else { i - 1 };
+            assert(pg_begin(b0) <= pg_slot(b0, k) && ic_ok(b0, pg_slot(b0, k)));
+            lemma_icell_frame(b0, b, pg_slot(b0, k));
+        }
+    }
+    assert(int_seps(b) =~= int_seps(b0).insert(idx, key));
+    assert(int_children(b) =~= int_children(b0).insert(idx, child));
+}
+
+impl<'a> Page<'a> {
+// C26.page.internal_insert_at.spec — whole view, like leaf_insert_at.
+//@extract nervusdb-storage/src/index/btree.rs Page::internal_insert_at ret r
+//@| requires internal_wf(old(self).b()), key@.len() <= 0x7fff_ffff_ffff_ffff,
+//@| ensures r is Err ==> final(self).b() == old(self).b(),
+//@|     r is Ok ==> internal_wf(final(self).b()) && int_seps(final(self).b()) == int_seps(old(self).b()).insert(idx as int, key@)
+//@|         && int_children(final(self).b()) == int_children(old(self).b()).insert(idx as int, right_child.0)
+//@|         && int_child(final(self).b(), 0) == int_child(old(self).b(), 0),
+//@|     r is Ok <==> key@.len() <= u32::MAX && idx <= pg_count(old(self).b())
+//@|         && 32 + 2 * pg_count(old(self).b()) + 2 + 8 + vlen(key@.len() as u32) + key@.len() <= pg_begin(old(self).b()),
+//@prewrite "&mut self.buf[cell_off + 8..cell_off + 8 + var_len]" => "v_arr_range_mut(self.buf, cell_off + 8, cell_off + 8 + var_len)"
+//@prewrite "self.buf[key_start..key_start + key.len()].copy_from_slice(key);" => "v_copy_from_slice(v_arr_range_mut(self.buf, key_start, key_start + key.len()), key);"
+//@prewrite "debug_assert_eq!(wrote, var_len);" => "assert(wrote == var_len);"
+//@proof after 1 "self.set_cell_content_begin(" raw
+//@| let ghost s1 = self.b();
+//@proof before 1 "let wrote = write_varint_u32(" raw
+//@| let ghost s1b = self.b();
+//@proof before 1 "let key_start = cell_off + 8 + var_len;" raw
+//@| let ghost s2 = self.b();
+//@| proof {
+//@|     lemma_venc_len(key_len);
+//@|     assert(s2.subrange(cell_off + 8, cell_off + 8 + var_len) =~= venc(key_len));
+//@|     assert forall|j: int| 0 <= j < 8192 && !(cell_off + 8 <= j < cell_off + 8 + var_len) implies #[trigger] s2[j] == s1b[j] by {}
+//@| }
+//@proof before 1 "self.shift_slots_right(" raw
+//@| let ghost s4 = self.b();
+//@| proof {
+//@|     assert(s4.subrange(key_start as int, key_start + key@.len()) =~= key@);
+//@|     assert forall|j: int| 0 <= j < 8192 && !(key_start <= j < key_start + key@.len()) implies #[trigger] s4[j] == s2[j] by {}
+//@|     assert(pg_kind_ok(s4)) by { assert(s4.subrange(0, 4) =~= old(self).b().subrange(0, 4)); }
+//@|     assert(pg_count(s4) == count) by { assert(s4.subrange(6, 8) =~= old(self).b().subrange(6, 8)); }
+//@| }
+//@proof before 1 "self.slot_set(" raw
+//@| let ghost s5 = self.b();
+//@| proof { assert(pg_kind_ok(s5)) by { assert(s5.subrange(0, 4) =~= old(self).b().subrange(0, 4)); } }
+//@proof before 1 "self.set_cell_count(" raw
+//@| let ghost s6 = self.b();
+//@proof before 1 "=Ok(())"
+//@| let b0 = old(self).b(); let b = self.b(); let bg = pg_begin(b0);
+//@| lemma_le64_len(right_child.0);
+//@| assert(b.subrange(8, 10) =~= s1.subrange(8, 10));
+//@| assert(b.subrange(32 + 2 * idx, 32 + 2 * idx + 2) =~= s6.subrange(32 + 2 * idx, 32 + 2 * idx + 2));
+//@| assert(b.subrange(32 + 2 * idx + 2, 32 + 2 * count + 2) =~= b0.subrange(32 + 2 * idx, 32 + 2 * count)) by {
+//@|     let x = s5.subrange(32 + 2 * idx + 2, 32 + 2 * count + 2); let y = s4.subrange(32 + 2 * idx, 32 + 2 * count);
+//@|     assert forall|j: int| 0 <= j < 2 * (count - idx) implies #[trigger] b.subrange(32 + 2 * idx + 2, 32 + 2 * count + 2)[j] == b0.subrange(32 + 2 * idx, 32 + 2 * count)[j] by {
+//@|         assert(x[j] == y[j]);
+//@|     }
+//@| }
+//@| assert(b.subrange(cell_off as int, bg) =~= le64(right_child.0) + venc(key_len) + key@) by {
+//@|     let c8 = s1b.subrange(cell_off as int, cell_off + 8);
+//@|     let v = s2.subrange(cell_off + 8, cell_off + 8 + var_len); let k = s4.subrange(key_start as int, key_start + key@.len());
+//@|     assert forall|j: int| 0 <= j < bg - cell_off implies #[trigger] b.subrange(cell_off as int, bg)[j] == (le64(right_child.0) + venc(key_len) + key@)[j] by {
+//@|         if j < 8 { assert(c8[j] == le64(right_child.0)[j]); }
+//@|         else if j < 8 + var_len { assert(v[j - 8] == venc(key_len)[j - 8]); }
+//@|         else { assert(k[j - 8 - var_len] == key@[j - 8 - var_len]); }
+//@|     }
+//@| }
+//@| lemma_internal_insert_view(b0, b, idx as int, key@, right_child.0);
+//@end
+}
+
 //@canary|pub proof fn canary_leaf_wf(b: Seq<u8>) requires leaf_wf(b), pg_count(b) == 3, keys_sorted(leaf_cells(b)), leaf_cells(b)[0].0 == leaf_cells(b)[1].0 ensures false {}
 //@canary|pub proof fn canary_internal_wf(b: Seq<u8>) requires internal_wf(b), pg_count(b) == 2, seps_sorted(int_seps(b)) ensures false {}
 //@canary|pub proof fn canary_insert_fits(b: Seq<u8>, k: Seq<u8>) requires leaf_wf(b), pg_count(b) == 1, k.len() == 300, 24 + 2 * pg_count(b) + 2 + vlen(k.len() as u32) + k.len() + 8 <= pg_begin(b) ensures false {}
